@@ -1,4 +1,5 @@
 import LoguruModel.Queue.Sent
+import LoguruModel.Generated.QueueShape
 /-
 C03 – property theorems about the producer / worker protocol of an `enqueue=True` handler
 (`Queue.step`), for every assignment of threads to processes and every schedule.
@@ -134,6 +135,25 @@ example :
     let s := run proc {} sched
     s.sink = [(1, 10), (2, 20)] ∧ s.completed = [(2, 2)] ∧ s.removed = true ∧ s.w = .done ∧
       s.sentMark = some 2 := by
+  decide
+
+/-- tie G: the statements of `Handler.emit` (critical section), `stop`, `complete_queue` and the control-item
+tests of `_queued_writer` are the ones `Queue.step` transcribes: put / wait / clear all inside the confirmation
+lock; control items recognised by IDENTITY (`is None`, `is True`), so no message text can be mistaken for one;
+`_stopped` set before the owner check, sentinel, join and sink.stop, all under the handler lock. -/
+theorem queue_shape_of_source :
+    Queue.ShapeGen.completeInsideLock =
+      ["self._queue.put(True)", "self._confirmation_event.wait()", "self._confirmation_event.clear()"] ∧
+    Queue.ShapeGen.completeAfterLock = [] ∧
+    Queue.ShapeGen.workerTests =
+      [("message is None", "break"), ("message is True", "self._confirmation_event.set(); continue")] ∧
+    Queue.ShapeGen.stopBody =
+      ["self._stopped = True", "if self._enqueue:", "  if self._owner_process_pid != os.getpid(): return",
+       "  self._queue.put(None)", "  self._thread.join()",
+       "  if hasattr(self._queue, 'close'): self._queue.close()", "self._sink.stop()"] ∧
+    Queue.ShapeGen.emitCritical =
+      ["if self._stopped: return",
+       "if self._enqueue: self._queue.put(str_record) else: self._sink.write(str_record)"] := by
   decide
 
 end C03
